@@ -30,6 +30,7 @@ class Finding:
     func: str = ""
     construct: str = ""
     line: Optional[int] = None
+    stack: tuple = ()
 
     def key(self):
         return (self.rule, self.file, self.func, self.construct)
@@ -48,6 +49,7 @@ class Obligation:
     func: str = ""
     line: Optional[int] = None
     data: Any = None
+    stack: tuple = ()
 
 
 class Join(V):
@@ -194,6 +196,8 @@ class Interp:
         self.events: List[Any] = []          # stores to attributes / attribute containers and returns, in evaluation order
         self._last_test = None
         self.subs_sites: List[Any] = []
+        self.stack: List[str] = []           # qualified names of the functions being evaluated (callers first)
+        self.sitepaths: List[Any] = []       # per frame: the caller's branch conditions at the call site
         self.iterations: List[Any] = []      # every evaluated for / comprehension: dict(file, func, line, kind, node, source value)
 
     # ------------------------------------------------------------------ utils
@@ -212,13 +216,13 @@ class Interp:
 
     def report(self, rule, env, node, msg):
         file, q, construct, line = self._loc(env, node)
-        f = Finding(rule, self.where(env, node), msg, file, q, construct, line)
+        f = Finding(rule, self.where(env, node), msg, file, q, construct, line, tuple(self.stack))
         if not any(g.key() == f.key() for g in self.findings):
             self.findings.append(f)
 
     def oblige(self, rule, env, node, fact, ok, msg="", data=None):
         file, q, construct, line = self._loc(env, node)
-        self.obligations.append(Obligation(rule, self.where(env, node), fact, ok, file, q, line, data))
+        self.obligations.append(Obligation(rule, self.where(env, node), fact, ok, file, q, line, data, tuple(self.stack)))
         if not ok:
             self.report(rule, env, node, msg or fact)
 
@@ -270,14 +274,16 @@ class Interp:
                 obj.attrs[target.attr] = v
             self.events.append({"kind": "store", "func": (f"{env.cls}.{env.func}" if env.cls else env.func),
                                 "target": ast.unparse(target), "value": v, "path": list(env.path),
-                                "seq": len(self.events), "line": getattr(stmt, "lineno", None)})
+                                "seq": len(self.events), "line": getattr(stmt, "lineno", None),
+                                "stack": tuple(self.stack), "sitepaths": tuple(tuple(x) for x in self.sitepaths)})
         elif isinstance(target, ast.Subscript):
             obj = self.ev(target.value, env)
             self.store_subscript(obj, target, v, env, stmt)
             if isinstance(target.value, ast.Attribute):
                 self.events.append({"kind": "store", "func": (f"{env.cls}.{env.func}" if env.cls else env.func),
                                     "target": ast.unparse(target), "value": v, "path": list(env.path),
-                                    "seq": len(self.events), "line": getattr(stmt, "lineno", None)})
+                                    "seq": len(self.events), "line": getattr(stmt, "lineno", None),
+                                "stack": tuple(self.stack), "sitepaths": tuple(tuple(x) for x in self.sitepaths)})
 
     def destructure(self, v, n):
         if isinstance(v, TupleV) and len(v.items) == n:
@@ -431,7 +437,8 @@ class Interp:
         env.returns.append(v)
         env.return_paths.append(list(env.path))
         self.events.append({"kind": "return", "func": (f"{env.cls}.{env.func}" if env.cls else env.func), "value": v,
-                            "path": list(env.path), "seq": len(self.events), "line": s.lineno})
+                            "path": list(env.path), "seq": len(self.events), "line": s.lineno,
+                            "stack": tuple(self.stack), "sitepaths": tuple(tuple(x) for x in self.sitepaths)})
 
     def ex_Raise(self, s, env):
         return
@@ -439,7 +446,7 @@ class Interp:
     def record_iter(self, kind, node, iter_node, it, env, sinkinfo=None):
         file, q, construct, line = self._loc(env, iter_node)
         self.iterations.append({"file": file, "func": q, "line": line, "kind": kind, "node": node, "iter": construct,
-                                "source": it, "sink": sinkinfo})
+                                "source": it, "sink": sinkinfo, "stack": tuple(self.stack)})
 
     def ex_For(self, s, env: Env):
         it = self.ev(s.iter, env)
@@ -523,6 +530,8 @@ class Interp:
     def seq_elem(self, s: SeqV, lid):
         e = s.elem
         if isinstance(e, tuple) and e and e[0] == "TUPLE":
+            if len(e) >= 4:
+                return TupleV(tuple(ElemV(lid, s.layout, x) for x in e[1]), e[2], e[3])
             return TupleV(tuple(ElemV(lid, s.layout, x) for x in e[1]))
         return ElemV(lid, s.layout, e)
 
@@ -567,6 +576,10 @@ class Interp:
         if n.id in self.p.funcs.get(mod, {}):
             return FuncV(self.p.funcs[mod][n.id], mod)
         if n.id in self.p.classes.get(mod, {}):
+            cn = self.p.classes[mod][n.id]
+            if any(ast.unparse(b).split(".")[-1] == "NamedTuple" for b in cn.bases):
+                # class X(NamedTuple): a: T; b: T  -- a namedtuple with the annotated fields in order
+                return NTClsV(n.id, tuple(a.target.id for a in cn.body if isinstance(a, ast.AnnAssign) and isinstance(a.target, ast.Name)))
             return ClassV(mod, n.id)
         if n.id in self.p.assigns.get(mod, {}):
             menv = self.modenv.setdefault(mod, Env(mod))
@@ -1143,6 +1156,8 @@ class Interp:
             if isinstance(v, TupleV) and v.items and isinstance(v.items[0], SymV) and v.items[0].role == role:
                 # tuples whose first component is the (unique) key: natural tuple order == key order
                 tags = tuple(("key" if i == 0 else ("value", x)) for i, x in enumerate(v.items))
+                if v.names:
+                    return SeqV(lay, ("TUPLE", tags, v.names, v.ntname))      # namedtuple elements keep their field names
                 return SeqV(lay, ("TUPLE", tags))
             if isinstance(v, SymV) and v.role == role:
                 return SeqV(lay, "sym")
@@ -1361,10 +1376,14 @@ class Interp:
         for pnm in allparams:
             e2.vars[pnm] = bound.get(pnm, Unknown("param " + pnm))
         self.depth += 1
+        self.stack.append(f"{f.cls}.{fn.name}" if f.cls else fn.name)
+        self.sitepaths.append(list(env.path) if env is not None else [])
         try:
             self.ex_block(fn.body, e2)
         finally:
             self.depth -= 1
+            self.stack.pop()
+            self.sitepaths.pop()
         qn = f"{f.cls}.{fn.name}" if f.cls else fn.name
         call_id = len(self.calls)
         self.calls.append({"callee": qn, "args": dict(bound), "where": self.where(env, n) if env is not None and n is not None else "", "id": call_id})
@@ -1428,6 +1447,9 @@ def _jac_check(self, yields, env, n):
         holes = [h for h in tgt[1] if isinstance(h, IdxV)]
         names = [h for h in tgt[1] if isinstance(h, ElemV)]
         if isinstance(expr, tuple) and expr and expr[0] == "ARRELEM" and len(holes) == 2:
+            if _loop_of(expr[2]) is None or _loop_of(expr[3]) is None:
+                self.undecided("LAY-COVIDX", env, n, "the indices of the assigned entry could not be evaluated to loop elements")
+                continue
             ok = holes[0].loop == _loop_of(expr[2]) and holes[1].loop == _loop_of(expr[3]) and holes[0].offset == 0 and holes[1].offset == 0
             self.oblige("LAY-COVIDX", env, n, f"covariance(i over {holes[0].layout}, j over {holes[1].layout}) = data[i, j]", ok,
                         "covariance(i, j) is assigned data[j, i] / an offset entry" if not ok else "")
@@ -1443,7 +1465,9 @@ def _jac_check(self, yields, env, n):
                 key = src[2]
             elif isinstance(src, ElemV):
                 key = src
-            if key is not None:
+            if key is not None and _loop_of(key) is None:
+                self.undecided("LAY-TGT", env, n, "the assigned expression's key could not be evaluated to a loop element")
+            elif key is not None:
                 ok = _loop_of(key) == names[0].loop
                 self.oblige("LAY-TGT", env, n, f"`double <name of {names[0].layout}>` = model[<same element>]", ok,
                             "the declared local is named after one element but assigned another element's expression")
@@ -1454,6 +1478,9 @@ def _jac_check(self, yields, env, n):
             if out_loop is None and isinstance(num, ElemV):
                 out_loop = num.loop
             in_loop = _loop_of(den)
+            if out_loop is None or in_loop is None:
+                self.undecided("LAY-JAC", env, n, "the differentiated output / variable could not be evaluated to a loop element")
+                continue
             ok = holes[0].loop == out_loop and holes[1].loop == in_loop and holes[0].offset == 0 and holes[1].offset == 0
             swapped = holes[0].loop == in_loop and holes[1].loop == out_loop
             self.oblige("LAY-JAC", env, n,
